@@ -227,14 +227,22 @@ pub fn attr_value(rng: &mut StdRng) -> Variant {
 }
 
 pub fn numseq(rng: &mut StdRng) -> NumberSequence {
-    let n = [0usize, 1, 2, 2, 3, 20][rng.gen_range(0..6)];
+    numseq_min(rng, 0)
+}
+
+pub fn numseq_min(rng: &mut StdRng, min: usize) -> NumberSequence {
+    let n = [0usize, 1, 2, 2, 3, 20][rng.gen_range(0..6)].max(min);
     NumberSequence {
         keypoints: (0..n).map(|_| NumberSequenceKeypoint::new(f32_any(rng), f32_any(rng), f32_any(rng))).collect(),
     }
 }
 
 pub fn colorseq(rng: &mut StdRng) -> ColorSequence {
-    let n = [0usize, 1, 2, 2, 3, 20][rng.gen_range(0..6)];
+    colorseq_min(rng, 0)
+}
+
+pub fn colorseq_min(rng: &mut StdRng, min: usize) -> ColorSequence {
+    let n = [0usize, 1, 2, 2, 3, 20][rng.gen_range(0..6)].max(min);
     ColorSequence {
         keypoints: (0..n).map(|_| ColorSequenceKeypoint::new(f32_any(rng), color3_any(rng))).collect(),
     }
@@ -282,7 +290,7 @@ pub fn value_of(ty: VariantType, rng: &mut StdRng, refs: &[Ref], xml_safe: bool)
         VariantType::CFrame => Variant::CFrame(cframe_any(rng)),
         VariantType::Color3 => Variant::Color3(color3_any(rng)),
         VariantType::Color3uint8 => Variant::Color3uint8(Color3uint8::new(rng.gen(), rng.gen(), rng.gen())),
-        VariantType::ColorSequence => Variant::ColorSequence(colorseq(rng)),
+        VariantType::ColorSequence => Variant::ColorSequence(colorseq_min(rng, if xml_safe { 2 } else { 0 })),
         VariantType::ContentId => Variant::ContentId(["", "rbxassetid://1", "http://x/y?z=1&w=2"][rng.gen_range(0..3)].into()),
         VariantType::Enum => Variant::Enum(Enum::from_u32(if rng.gen_bool(0.2) { rng.gen() } else { rng.gen_range(0..2000) })),
         VariantType::Float32 => Variant::Float32(f32_any(rng)),
@@ -290,7 +298,7 @@ pub fn value_of(ty: VariantType, rng: &mut StdRng, refs: &[Ref], xml_safe: bool)
         VariantType::Int32 => Variant::Int32(i32_any(rng)),
         VariantType::Int64 => Variant::Int64(i64_any(rng)),
         VariantType::NumberRange => Variant::NumberRange(NumberRange::new(f32_any(rng), f32_any(rng))),
-        VariantType::NumberSequence => Variant::NumberSequence(numseq(rng)),
+        VariantType::NumberSequence => Variant::NumberSequence(numseq_min(rng, if xml_safe { 2 } else { 0 })),
         VariantType::PhysicalProperties => Variant::PhysicalProperties(if rng.gen_bool(0.3) {
             PhysicalProperties::Default
         } else {
@@ -334,7 +342,8 @@ pub fn value_of(ty: VariantType, rng: &mut StdRng, refs: &[Ref], xml_safe: bool)
         VariantType::SecurityCapabilities => Variant::SecurityCapabilities(SecurityCapabilities::from_bits(rng.gen())),
         VariantType::Content => Variant::Content(match rng.gen_range(0..4) {
             0 => Content::none(),
-            1 => Content::from_referent(pick_ref(rng)),
+            // rbx_xml cannot write object references (recorded finding); XML cases use URIs only
+            1 if !xml_safe => Content::from_referent(pick_ref(rng)),
             _ => Content::from_uri(["rbxassetid://77", "", "rbxasset://a b.png"][rng.gen_range(0..3)]),
         }),
         _ => return None,
